@@ -249,6 +249,39 @@ def run(ctx) -> None:
                 okc, msgc = False, f"a path that observes _closed does not return None ({p.outcome[0]})"
     ctx.check(okc and nclosed > 0, RC, f"{CLS}.get", msgc or "get() never tests the closed flag", ci.methods["get"].loc)
 
+    # ---------------------------------------------------------------- indexed deletion is atomic with the search
+    RA = ctx.rule("C17/search-and-delete-atomic", "an element is deleted by index only inside the critical section in which that index was found by enumerating the live deque (no release in between, no snapshot)", floor=1)
+    ndel = 0
+    for m, paths in all_paths.items():
+        def scan(ps, loop_iter, released_in_iter):
+            nonlocal ndel
+            for p in ps:
+                rel = False
+                outer_iter = loop_iter
+                for e in p.evs:
+                    if e.kind == "release":
+                        rel = True
+                    if e.kind == "final_iter":
+                        loop_iter, rel = e.text, False  # the events that follow are the last iteration of that loop
+                    if e.kind == "del" and e.extra.get("container") == "self._queue":
+                        ndel += 1
+                        k = e.extra.get("key", "")
+                        live = k.startswith("$elem(enumerate(self._queue))")
+                        ctx.check(
+                            live and not rel and loop_iter == "enumerate(self._queue)",
+                            RA,
+                            f"{CLS}.{m} :: {e.raw}",
+                            f"the index `{k[:60]}` was not obtained from the live deque inside this critical section (found over `{loop_iter}`, lock released in between: {rel or not live}): "
+                            "a concurrent get() shifts the indices and another element is deleted (one element lost, one handed out twice)",
+                            f"{ci.module.relpath}:{e.line}",
+                        )
+                    if e.kind == "loop":
+                        scan(e.extra["paths"], e.text, rel)
+                loop_iter = outer_iter
+        scan(paths, None, False)
+    if ndel == 0:
+        ctx.ok(RA, "no indexed deletion on the deque", ci.loc, nontrivial=False)
+
     # ---------------------------------------------------------------- FIFO ops
     ops = {}
     for m, fi in ci.methods.items():
@@ -284,6 +317,7 @@ VARIANTS = [
     dict(name="B remove without lock", expect="fire", rule="C17/guarded-by", edits=[(DQ, "        with self._lock:\n            for i, (elem, *_) in enumerate(self._queue):", "        if True:\n            for i, (elem, *_) in enumerate(self._queue):")]),
     dict(name="B put without notify", expect="fire", rule="C17/monitor-discipline", edits=[(DQ, "        self._queue.append((element, time.time(), delay))\n        self._not_empty.notify()", "        self._queue.append((element, time.time(), delay))")]),
     dict(name="B closed returns head", expect="fire", rule="C17/", edits=[(DQ, "            if self._closed:\n                self._not_empty.release()\n                return None", "            if self._closed and len(self._queue) == 0:\n                self._not_empty.release()\n                return None")]),
+    dict(name="B remove searches a snapshot outside the lock", expect="fire", rule="C17/search-and-delete-atomic", edits=[(DQ, "        with self._lock:\n            for i, (elem, *_) in enumerate(self._queue):\n                if predicate(elem):\n                    del self._queue[i]\n                    return elem\n        return None", "        with self._lock:\n            snapshot = list(self._queue)\n        for i, (elem, *_) in enumerate(snapshot):\n            if predicate(elem):\n                with self._lock:\n                    del self._queue[i]\n                return elem\n        return None")]),
     dict(name="E with-statement for explicit pairs in put", expect="silent", edits=[(DQ, "        self._lock.acquire()\n        self._queue.append((element, time.time(), delay))\n        self._not_empty.notify()\n        self._lock.release()", "        with self._not_empty:\n            self._queue.append((element, time.time(), delay))\n            self._not_empty.notify()")]),
     dict(name="E notify -> notify_all", expect="silent", edits=[(DQ, "        self._queue.append((element, time.time(), delay))\n        self._not_empty.notify()", "        self._queue.append((element, time.time(), delay))\n        self._not_empty.notify_all()")]),
     dict(name="E closed flag set under the lock", expect="silent", edits=[(DQ, "        self._closed = True\n        # Interrupt the blocking _not_empty.wait() call in get\n        self._not_empty.acquire()\n        self._not_empty.notify()", "        # Interrupt the blocking _not_empty.wait() call in get\n        self._not_empty.acquire()\n        self._closed = True\n        self._not_empty.notify()")]),
